@@ -585,7 +585,11 @@ class Interp:
         return v
 
     def e_Name(self, node, frame):
-        return frame.lookup(node.id)
+        v = frame.lookup(node.id)
+        if self.concrete and isinstance(v, Sym) and v.e.eq(sym.PI):
+            import math
+            return math.pi
+        return v
 
     def e_Tuple(self, node, frame):
         return tuple(self.eval_list(node.elts, frame))
@@ -913,6 +917,8 @@ class Interp:
     def call_analysed(self, f, args, kwargs, node, frame):
         """call of a typhon function: contract (modular) or inline"""
         wrapped = getattr(f, "__wrapped__", None)
+        if self.concrete and getattr(f, "__pyvc_thm__", False):
+            return self.run_function(f, args, kwargs)
         if self.concrete:
             if deep_sym(args) or deep_sym(kwargs):
                 raise OutsideSubset("symbolic value in concrete mode")
